@@ -12,6 +12,7 @@ pub mod c04;
 pub mod c05;
 pub mod c09;
 pub mod c13;
+pub mod c18;
 pub mod selftest;
 
 #[derive(Clone, Debug)]
@@ -264,6 +265,7 @@ pub fn dispatch(cfg: &RunCfg, rep: &mut Report) -> bool {
         "C05" => c05::run(cfg, rep),
         "C09" => c09::run(cfg, rep),
         "C13" => c13::run(cfg, rep),
+        "C18" => c18::run(cfg, rep),
         "ST" => selftest::run(cfg, rep),
         _ => return false,
     }
